@@ -21,6 +21,15 @@ def run(ctx, b, broken):
         io = impl_parse(text)
         return None if io.startswith("OK") or io == "R" else f"valid program rejected: {io[:160]!r}"
     replay_known(ctx, oracle)
+    for text, valid in ZOO:
+        if valid:
+            ctx.evaluations += 1
+            ctx.count("suite:zoo")
+            ctx.nontriv(text)
+            io = impl_parse(text)
+            su.corr(text, io, tag="hand-written programs")
+            if not (io.startswith("OK") or io == "R"):
+                su.violation(text, f"a valid program was rejected: {io[:160]!r}")
     for g, toks, exp in gen_cases(ctx, n, size=(1, 5)):
         g.avoid_known = True
         text, pos = cgen.layout(toks, ctx.rng, ctx.rng.choice(["single", "random", "lines"]))
